@@ -1050,6 +1050,9 @@ def main2(tier, cfg, t0, setup, natpath):
             continue
         seen_texts.add(text)
         uniq.append((cid, text))
+    if os.environ.get("VERIF_C17_FILTER"):
+        # development aid: only the corpus texts whose id matches the regular expression
+        uniq = [x for x in uniq if re.search(os.environ["VERIF_C17_FILTER"], x[0])]
     tc = time.time()
     # unit-test inputs first, then the mutants round-robin over the inputs (a budget cut leaves an even coverage)
     base = [x for x in uniq if "~" not in x[0]]
